@@ -34,7 +34,6 @@ import (
 
 	tls "github.com/refraction-networking/utls"
 
-	"verif/harness/internal/lockshape"
 )
 
 // ---- c26_shape ----
@@ -43,18 +42,13 @@ func init() {
 	register(&Family{
 		Name: "c26_shape",
 		Gen: func(r *Rng, i int, tier string) string {
-			if i > 0 {
+			fns := []string{"handshakeContext", "Write", "Close"}
+			if i >= len(fns) {
 				return ""
 			}
-			return "fn=handshakeContext"
+			return "fn=" + fns[i]
 		},
-		Exec: func(in KV) string {
-			ss, err := lockshape.Extract(lockshape.SourceFile(), "UConn", in["fn"])
-			if err != nil {
-				return "err=" + sanitize(err.Error())
-			}
-			return "prog=" + lockshape.Tokens(ss)
-		},
+		Exec: c26ShapeExec,
 	})
 }
 
